@@ -92,8 +92,18 @@ func c14Digest(toks string, prog *ast.Program, errs []parser.ParserError, cfg Cf
 	if len(errs) == 0 && prog != nil {
 		res := c.Compile(prog)
 		b.WriteString(res.Code)
-		if res.SourceMap != nil {
-			fmt.Fprintf(&b, "|map=%s|names=%v", res.SourceMap.Mappings, res.SourceMap.Names)
+		if sm := res.SourceMap; sm != nil {
+			// the whole map as returned - and then the caller fills in its own file
+			// data, as every user of the map does: a result object shared between
+			// compilations would show it to the next one
+			fmt.Fprintf(&b, "|map=%s|names=%v|version=%d|file=%q|root=%q|sources=%q|content=%q", sm.Mappings, sm.Names, sm.Version, sm.File, sm.SourceRoot, sm.Sources, sm.SourcesContent)
+			sm.File = "out.js"
+			sm.SourceRoot = "/src"
+			sm.Sources = append(sm.Sources, "in.xjs")
+			sm.SourcesContent = append(sm.SourcesContent, "...")
+			if len(sm.Names) > 0 {
+				sm.Names[0] = "overwritten-by-the-caller"
+			}
 		}
 	}
 	return b.String()
@@ -307,7 +317,10 @@ func c14Gen(t *rapid.T, rec *evid.Recorder) c14Case {
 			tree.Kids = append(tree.Kids, ir.N(ir.ExprStmt, "", ir.N(ir.Call, "", args...)))
 		}
 		src, toks := layout.Source(r, tree, layout.Options{Random: true, ASI: true, Comments: true})
-		switch r.Intn(4, "inputkind") {
+		switch r.Intn(5, "inputkind") {
+		case 4:
+			// nothing to map: empty, white space only, comments only
+			src = []string{"", "\n\n  \n", "// only a comment\n", "// a\n\n// b"}[r.Intn(4, "emptykind")]
 		case 0:
 			src = mutateTokens(r, toks)
 		case 1:
